@@ -296,20 +296,48 @@ def run_guards(repo, R, max_order):
         if isinstance(node, ast.Compare) and ast.unparse(node.left) == "deriv_type" and len(node.ops) == 1 and isinstance(node.ops[0], ast.Eq) \
                 and isinstance(node.comparators[0], ast.Constant):
             handled.add(node.comparators[0].value)
-    # walk the if/elif chain containing the back-end calls
-    chain_if = None
-    for st in fn.body:
-        if isinstance(st, ast.If) and "deriv_type" in ast.unparse(st.test) and any(c in ast.walk(st) for c in dcalls + gcalls):
-            chain_if = st
-    if chain_if is None:
-        raise AnalysisError("GUARD", "if/elif chain over deriv_type not found", k.where())
-    cur = chain_if
-    while len(cur.orelse) == 1 and isinstance(cur.orelse[0], ast.If):
-        cur = cur.orelse[0]
-    ends_raise = bool(cur.orelse) and terminates(cur.orelse) and isinstance(cur.orelse[-1], ast.Raise)
-    R.check(ends_raise, "GUARD-EXHAUSTIVE", k.site, f"dispatch on deriv_type over {sorted(handled)}",
-            "a back-end name other than the handled ones falls through the if/elif chain (unbound result) instead of being rejected",
-            where=k.where(chain_if), expected="final `else: raise`", found="no raising else")
+    # a back-end name other than the handled ones must end in a raise on every path: follow the statements with every
+    # `deriv_type == <const>` test false (tests on other things: both ways)
+    def outcomes(stmts):
+        """-> set of ways the statement list can end for an unhandled name: 'raise', 'return', 'fall'"""
+        out = set()
+        live = True
+        for st in stmts:
+            if isinstance(st, ast.Raise):
+                out.add("raise")
+                live = False
+                break
+            if isinstance(st, ast.Return):
+                out.add("return")
+                live = False
+                break
+            if isinstance(st, ast.If):
+                t = st.test
+                is_dt = isinstance(t, ast.Compare) and ast.unparse(t.left) == "deriv_type" and len(t.ops) == 1 and isinstance(t.comparators[0], ast.Constant)
+                if is_dt and isinstance(t.ops[0], ast.Eq):
+                    branches = [st.orelse]
+                elif is_dt and isinstance(t.ops[0], ast.NotEq):
+                    branches = [st.body]
+                elif isinstance(t, ast.Compare) and ast.unparse(t.left) == "deriv_type" and isinstance(t.ops[0], ast.NotIn):
+                    branches = [st.body]
+                elif isinstance(t, ast.Compare) and ast.unparse(t.left) == "deriv_type" and isinstance(t.ops[0], ast.In):
+                    branches = [st.orelse]
+                else:
+                    branches = [st.body, st.orelse]
+                res = set()
+                for b in branches:
+                    res |= outcomes(b)
+                out |= res - {"fall"}
+                if "fall" not in res:
+                    live = False
+                    break
+        if live:
+            out.add("fall")
+        return out
+    oc = outcomes(fn.body)
+    R.check(oc == {"raise"} or oc == {"raise"} | set(), "GUARD-EXHAUSTIVE", k.site, f"dispatch on deriv_type over {sorted(handled)}",
+            "a back-end name other than the handled ones is not rejected on every path (it reaches a return or falls off the end)",
+            where=k.where(), expected="every path for an unknown name ends in `raise`", found=sorted(oc))
     # ---- the direct back-end is only reached with orders it implements
     for c in dcalls:
         st = stmt_of(fn, c)
@@ -354,14 +382,22 @@ def run_slots(repo, R):
     gcalls = calls_in(fn, general.name)
     if not dcalls or not gcalls:
         raise AnalysisError("SLOT", "back-end calls not found in EvalDeriv.construct_array_contraction", k.where())
+    def bound(callee, call):
+        """parameter -> argument node (positional and keyword)"""
+        d = dict(zip(callee.params, call.args))
+        for kw in call.keywords:
+            if kw.arg is not None:
+                d[kw.arg] = kw.value
+        return d
     # arguments handed to both back-ends agree (same slots)
-    a1 = [ast.unparse(z) for z in gcalls[0].args]
-    a2 = [ast.unparse(z) for z in dcalls[0].args]
-    R.check(a1 == a2 and len(a1) == 7, "SIBLING", k.site, "arguments of the two back-end calls",
+    b1, b2 = bound(general, gcalls[0]), bound(direct, dcalls[0])
+    a1 = [ast.unparse(b1[p_]) if p_ in b1 else None for p_ in general.params[:7]]
+    a2 = [ast.unparse(b2[p_]) if p_ in b2 else None for p_ in direct.params[:7]]
+    R.check(a1 == a2 and None not in a1, "SIBLING", k.site, "arguments of the two back-end calls",
             "the two back-ends are called with different arguments", where=k.where(dcalls[0]), expected=a1, found=a2)
     # and they are the shell's own attributes in the right slots
     D = Defs(fn)
-    slots = dict(zip(general.params, gcalls[0].args))
+    slots = b1
     want = {"center": "coord", "angmom_comps": "angmom_components_cart", "alphas": "exps", "prim_coeffs": "coeffs", "norm": "norm_prim_cart"}
     for par, attr in want.items():
         e = slots.get(par)
@@ -377,11 +413,18 @@ def run_slots(repo, R):
     ev = repo.func("gbasis.evals.eval.Eval.construct_array_contraction")
     R.note_function(ev.qualname)
     ec = calls_in(ev.node, general.name)
-    ok = len(ec) == 1 and len(ec[0].args) == 7 and ast.unparse(ec[0].args[1]) in ("np.zeros(3)", "np.zeros(3, dtype=int)", "np.array([0, 0, 0])")
-    R.check(ok, "SLOT", ev.site, "orders = zeros(3)", "function values must be the order-(0,0,0) case of the general back-end",
-            where=ev.where(), expected="np.zeros(3)", found=ast.unparse(ec[0].args[1]) if ec and len(ec[0].args) > 1 else None)
+    if len(ec) != 1:
+        raise AnalysisError("SLOT", "Eval.construct_array_contraction does not call the general back-end exactly once", ev.where())
+    eslots = bound(general, ec[0])
     ED = Defs(ev.node)
-    eslots = dict(zip(general.params, ec[0].args)) if ec else {}
+    o = eslots.get("orders")
+    if isinstance(o, ast.Name):
+        o = ED.single_assign(o.id) or o
+    ok = o is not None and ast.unparse(o) in ("np.zeros(3)", "np.zeros(3, dtype=int)", "np.array([0, 0, 0])", "np.zeros((3,))", "np.zeros(3, int)")
+    R.check(ok, "SLOT", ev.site, "orders = zeros(3)", "function values must be the order-(0,0,0) case of the general back-end",
+            where=ev.where(), expected="np.zeros(3)", found=ast.unparse(o) if o is not None else None)
+    c0 = eslots.get("coords")
+    R.check(c0 is not None and ast.unparse(c0) == "points", "SLOT", ev.site, "coords = points", "the points are not forwarded to the back-end", where=ev.where())
     for par, attr in want.items():
         e = eslots.get(par)
         if isinstance(e, ast.Name):
